@@ -403,20 +403,8 @@ impl SuffixArrayBuilder {
 
     /// SA-IS (Suffix Array by Induced Sorting) algorithm implementation
     fn sais_construct(&self, text: &[u8]) -> Result<Vec<usize>> {
-        // Add recursion depth limit to prevent stack overflow
-        self.sais_construct_with_depth(text, 0)
-    }
-    
-    fn sais_construct_with_depth(&self, text: &[u8], depth: usize) -> Result<Vec<usize>> {
-        // Prevent stack overflow with recursion depth limit
-        const MAX_RECURSION_DEPTH: usize = 100;
-        if depth > MAX_RECURSION_DEPTH {
-            // Fall back to simple sorting for deep recursion
-            return self.fallback_sort(text);
-        }
-        
         let n = text.len();
-        
+
         // Guard against excessive memory allocation
         const MAX_TEXT_SIZE: usize = 1 << 30; // 1GB limit
         if n > MAX_TEXT_SIZE {
@@ -424,124 +412,96 @@ impl SuffixArrayBuilder {
                 "Text too large for suffix array construction"
             ));
         }
-        
+
         // Find alphabet size
         let alphabet_size = if self.config.optimize_small_alphabet {
             256 // Full byte alphabet
         } else {
-            text.iter().max().unwrap_or(&0).wrapping_add(1) as usize
+            // widen before adding one: a text containing 0xFF needs 256 buckets
+            *text.iter().max().unwrap_or(&0) as usize + 1
         };
 
-        // Step 1: Classify suffixes as L-type or S-type
-        let (suffix_types, is_lms) = self.classify_suffixes(text)?;
+        // The recursion sorts strings of LMS-substring names, which do not fit a
+        // byte; widen the text once so that every level runs the same code.
+        let symbols: Vec<usize> = text.iter().map(|&ch| ch as usize).collect();
+        Ok(self.sais_sort(&symbols, alphabet_size))
+    }
 
-        // Step 2: Find LMS suffixes
-        let lms_suffixes = self.find_lms_suffixes(&is_lms);
-
-        if lms_suffixes.is_empty() {
-            // All suffixes are L-type (monotonically decreasing string)
-            return Ok((0..n).rev().collect());
+    /// Induced sorting of a string over the integer alphabet `0..alphabet_size`.
+    ///
+    /// The string carries no explicit terminator. A virtual sentinel that is
+    /// smaller than every symbol follows the last position; it makes the last
+    /// suffix L-type and is the first suffix the L-type scan induces from.
+    /// Each level at least halves the string, so the recursion is O(log n) deep.
+    fn sais_sort(&self, text: &[usize], alphabet_size: usize) -> Vec<usize> {
+        let n = text.len();
+        if n == 0 {
+            return Vec::new();
+        }
+        if n == 1 {
+            return vec![0];
         }
 
-        // Step 3: Sort LMS suffixes
-        let mut sa = vec![0; n];
+        // Step 1: Classify suffixes as L-type or S-type
+        let (suffix_types, is_lms) = self.classify_suffixes(text);
+
+        // Step 2: Find LMS suffixes (in text order)
+        let lms_suffixes = self.find_lms_suffixes(&is_lms);
+
+        // Count symbol frequencies and compute bucket boundaries
         let mut bucket = vec![0; alphabet_size];
         let mut bucket_heads = vec![0; alphabet_size];
         let mut bucket_tails = vec![0; alphabet_size];
-
-        // Count character frequencies
         for &ch in text {
-            bucket[ch as usize] += 1;
+            bucket[ch] += 1;
         }
-
-        // Compute bucket boundaries
         self.compute_bucket_boundaries(&bucket, &mut bucket_heads, &mut bucket_tails);
 
-        // Initialize SA with sentinel values
-        for i in 0..n {
-            sa[i] = n; // Use n as sentinel (invalid index)
-        }
+        // Step 3: Sort the LMS substrings: seed the LMS suffixes at the ends of
+        // their buckets (any order) and induce; n marks an empty slot
+        let mut sa = vec![n; n];
+        self.place_lms_suffixes(&mut sa, text, &lms_suffixes, &bucket_tails);
+        self.induce_l_type(&mut sa, text, &suffix_types, &bucket_heads);
+        self.induce_s_type(&mut sa, text, &suffix_types, &bucket_tails);
 
-        // Place LMS suffixes at the end of their buckets with bounds checking
-        for &lms_idx in lms_suffixes.iter().rev() {
-            if lms_idx >= text.len() {
-                continue; // Skip invalid indices
-            }
-            let ch = text[lms_idx] as usize;
-            if ch < bucket_tails.len() && bucket_tails[ch] > 0 {
-                bucket_tails[ch] -= 1;
-                if bucket_tails[ch] < sa.len() {
-                    sa[bucket_tails[ch]] = lms_idx;
-                }
-            }
-        }
-
-        // Induce L-type suffixes
-        self.induce_l_type(&mut sa, text, &suffix_types, &bucket_heads)?;
-
-        // Induce S-type suffixes
-        self.induce_s_type(&mut sa, text, &suffix_types, &bucket_tails)?;
-
-        // Step 4: Compact LMS suffixes and check if they're unique
+        // Step 4: Name the LMS substrings in sorted order
         let lms_sa = self.compact_lms_suffixes(&sa, &is_lms);
-        let lms_names = self.name_lms_substrings(text, &lms_sa, &lms_suffixes)?;
+        let (lms_names, name_count) =
+            self.name_lms_substrings(text, &lms_sa, &lms_suffixes, &is_lms);
 
-        // Check if all LMS substrings are unique
-        let max_name = lms_names.iter().max().copied().unwrap_or(0);
-        
-        if (max_name as usize) < lms_suffixes.len() {
-            // Not all LMS substrings are unique, recursively sort them with depth tracking
-            let reduced_sa = self.sais_construct_with_depth(&lms_names, depth + 1)?;
-            
-            // Map back to original indices
-            let mut sorted_lms = Vec::new();
-            for &rank in &reduced_sa {
-                sorted_lms.push(lms_suffixes[rank]);
-            }
-
-            // Rebuild SA with sorted LMS suffixes
-            self.rebuild_sa_with_sorted_lms(text, &sorted_lms, &suffix_types, alphabet_size)
+        let sorted_lms = if name_count < lms_suffixes.len() {
+            // Some LMS substrings are equal: the order of the LMS suffixes is the
+            // suffix array of the string of names
+            let reduced_sa = self.sais_sort(&lms_names, name_count);
+            reduced_sa.iter().map(|&rank| lms_suffixes[rank]).collect()
         } else {
-            // All LMS substrings are unique, SA is complete
-            // Handle any remaining sentinel values by finding missing indices
-            if sa.iter().any(|&x| x >= n) {
-                // Find which indices are missing from the suffix array
-                let mut present = vec![false; n];
-                for &val in sa.iter() {
-                    if val < n {
-                        present[val] = true;
-                    }
-                }
-                
-                let missing_indices: Vec<usize> = (0..n).filter(|&i| !present[i]).collect();
-                let mut missing_iter = missing_indices.into_iter();
-                
-                // Replace sentinel values with missing indices
-                for sa_val in sa.iter_mut() {
-                    if *sa_val >= n {
-                        if let Some(missing_idx) = missing_iter.next() {
-                            *sa_val = missing_idx;
-                        }
-                    }
-                }
-            }
-            
-            Ok(sa)
+            // All LMS substrings differ, so their order is the LMS suffix order
+            lms_sa
+        };
+
+        // Step 5: Induce the final order from the sorted LMS suffixes
+        for slot in sa.iter_mut() {
+            *slot = n;
         }
+        self.place_lms_suffixes(&mut sa, text, &sorted_lms, &bucket_tails);
+        self.induce_l_type(&mut sa, text, &suffix_types, &bucket_heads);
+        self.induce_s_type(&mut sa, text, &suffix_types, &bucket_tails);
+
+        sa
     }
 
     /// Classify each suffix as L-type or S-type
-    fn classify_suffixes(&self, text: &[u8]) -> Result<(Vec<bool>, Vec<bool>)> {
+    fn classify_suffixes(&self, text: &[usize]) -> (Vec<bool>, Vec<bool>) {
         let n = text.len();
         let mut suffix_types = vec![false; n]; // false = L-type, true = S-type
         let mut is_lms = vec![false; n];
 
         if n == 0 {
-            return Ok((suffix_types, is_lms));
+            return (suffix_types, is_lms);
         }
 
-        // Last suffix is S-type by definition
-        suffix_types[n - 1] = true;
+        // The last suffix is followed by the (smaller) virtual sentinel: L-type
+        suffix_types[n - 1] = false;
 
         // Classify suffixes from right to left
         for i in (0..n - 1).rev() {
@@ -550,7 +510,7 @@ impl SuffixArrayBuilder {
             } else if text[i] > text[i + 1] {
                 suffix_types[i] = false; // L-type
             } else {
-                // Same character, inherit from next position
+                // Same symbol, inherit from next position
                 suffix_types[i] = suffix_types[i + 1];
             }
         }
@@ -562,7 +522,7 @@ impl SuffixArrayBuilder {
             }
         }
 
-        Ok((suffix_types, is_lms))
+        (suffix_types, is_lms)
     }
 
     /// Find all LMS suffix positions
@@ -588,70 +548,83 @@ impl SuffixArrayBuilder {
         }
     }
 
+    /// Put LMS suffixes at the ends of their buckets, keeping their given order
+    fn place_lms_suffixes(
+        &self,
+        sa: &mut [usize],
+        text: &[usize],
+        lms_suffixes: &[usize],
+        bucket_tails: &[usize],
+    ) {
+        let mut tails = bucket_tails.to_vec();
+
+        for &lms_pos in lms_suffixes.iter().rev() {
+            let ch = text[lms_pos];
+            tails[ch] -= 1;
+            sa[tails[ch]] = lms_pos;
+        }
+    }
+
     /// Induce L-type suffixes from left to right
     fn induce_l_type(
         &self,
         sa: &mut [usize],
-        text: &[u8],
+        text: &[usize],
         suffix_types: &[bool],
         bucket_heads: &[usize],
-    ) -> Result<()> {
+    ) {
         let n = text.len();
         let mut heads = bucket_heads.to_vec();
 
+        // The virtual sentinel is the smallest suffix; it induces the last
+        // suffix, which is L-type and the smallest suffix of its bucket
+        let last_ch = text[n - 1];
+        sa[heads[last_ch]] = n - 1;
+        heads[last_ch] += 1;
+
         for i in 0..n {
-            if sa[i] == n {
-                continue; // Skip sentinel values
+            let j = sa[i];
+            if j == n || j == 0 {
+                continue; // Empty slot, or no predecessor
             }
 
-            let j = sa[i];
-            if j > 0 && j <= text.len() && !suffix_types[j - 1] {
+            if !suffix_types[j - 1] {
                 // Predecessor is L-type
-                if j - 1 < text.len() {
-                    let ch = text[j - 1] as usize;
-                    if ch < heads.len() && heads[ch] < n && heads[ch] < sa.len() {
-                        sa[heads[ch]] = j - 1;
-                        heads[ch] += 1;
-                    }
-                }
+                let ch = text[j - 1];
+                sa[heads[ch]] = j - 1;
+                heads[ch] += 1;
             }
         }
-
-        Ok(())
     }
 
     /// Induce S-type suffixes from right to left
     fn induce_s_type(
         &self,
         sa: &mut [usize],
-        text: &[u8],
+        text: &[usize],
         suffix_types: &[bool],
         bucket_tails: &[usize],
-    ) -> Result<()> {
+    ) {
         let n = text.len();
+        // Start from the bucket ends again: every S-type suffix (the LMS seeds
+        // included) is induced in this pass and overwrites the seeds. A seed that
+        // is read before it is overwritten is an LMS suffix, whose predecessor is
+        // L-type, so it induces nothing.
         let mut tails = bucket_tails.to_vec();
 
         for i in (0..n).rev() {
-            if sa[i] == n {
-                continue; // Skip sentinel values
+            let j = sa[i];
+            if j == n || j == 0 {
+                continue; // Empty slot, or no predecessor
             }
 
-            let j = sa[i];
-            if j > 0 && j <= text.len() && suffix_types[j - 1] {
+            if suffix_types[j - 1] {
                 // Predecessor is S-type
-                if j - 1 < text.len() {
-                    let ch = text[j - 1] as usize;
-                    if ch < tails.len() && tails[ch] > 0 && tails[ch] <= sa.len() {
-                        tails[ch] -= 1;
-                        if tails[ch] < sa.len() {
-                            sa[tails[ch]] = j - 1;
-                        }
-                    }
-                }
+                let ch = text[j - 1];
+                tails[ch] -= 1;
+                sa[tails[ch]] = j - 1;
             }
         }
-
-        Ok(())
     }
 
     /// Compact LMS suffixes from the suffix array
@@ -667,154 +640,69 @@ impl SuffixArrayBuilder {
             .collect()
     }
 
-    /// Assign names to LMS substrings based on their lexicographic order
+    /// Assign names to LMS substrings based on their lexicographic order.
+    ///
+    /// Returns the names in text order of the LMS suffixes and the number of
+    /// distinct names.
     fn name_lms_substrings(
         &self,
-        text: &[u8],
+        text: &[usize],
         lms_sa: &[usize],
         lms_suffixes: &[usize],
-    ) -> Result<Vec<u8>> {
-        let mut names = vec![0u8; lms_suffixes.len()];
-        let mut current_name = 0u8;
-
-        if !lms_sa.is_empty() {
-            names[0] = current_name;
-
-            for i in 1..lms_sa.len() {
-                if !self.are_lms_substrings_equal(text, lms_sa[i - 1], lms_sa[i], lms_suffixes)? {
-                    current_name = current_name.wrapping_add(1);
-                }
-                
-                // Find position of lms_sa[i] in lms_suffixes with bounds checking
-                if lms_sa[i] < text.len() {
-                    let pos = lms_suffixes.iter().position(|&x| x == lms_sa[i])
-                        .ok_or_else(|| crate::error::ZiporaError::invalid_data("LMS suffix not found"))?;
-                    if pos < names.len() {
-                        names[pos] = current_name;
-                    }
-                } else {
-                    return Err(crate::error::ZiporaError::invalid_data("Invalid LMS suffix index"));
-                }
-            }
+        is_lms: &[bool],
+    ) -> (Vec<usize>, usize) {
+        if lms_sa.is_empty() {
+            return (Vec::new(), 0);
         }
 
-        Ok(names)
+        // Name of the LMS substring starting at each text position
+        let mut name_at = vec![0usize; text.len()];
+        let mut current_name = 0usize;
+
+        name_at[lms_sa[0]] = current_name;
+        for i in 1..lms_sa.len() {
+            if !self.are_lms_substrings_equal(text, lms_sa[i - 1], lms_sa[i], is_lms) {
+                current_name += 1;
+            }
+            name_at[lms_sa[i]] = current_name;
+        }
+
+        let names = lms_suffixes.iter().map(|&pos| name_at[pos]).collect();
+        (names, current_name + 1)
     }
 
-    /// Check if two LMS substrings are equal
+    /// Check if two LMS substrings are equal.
+    ///
+    /// An LMS substring runs from an LMS position up to and including the next
+    /// LMS position; the last one runs into the virtual sentinel, which no other
+    /// substring contains.
     fn are_lms_substrings_equal(
         &self,
-        text: &[u8],
+        text: &[usize],
         pos1: usize,
         pos2: usize,
-        lms_suffixes: &[usize],
-    ) -> Result<bool> {
-        if pos1 >= text.len() || pos2 >= text.len() {
-            return Ok(false);
-        }
-        
-        // Additional safety check for bounds
+        is_lms: &[bool],
+    ) -> bool {
         if pos1 == pos2 {
-            return Ok(true);
+            return true;
         }
 
-        // Find the end of each LMS substring
-        let end1 = self.find_lms_substring_end(pos1, lms_suffixes, text.len());
-        let end2 = self.find_lms_substring_end(pos2, lms_suffixes, text.len());
-
-        let len1 = end1 - pos1;
-        let len2 = end2 - pos2;
-
-        if len1 != len2 {
-            return Ok(false);
-        }
-
-        // Compare character by character with bounds checking
-        for i in 0..len1 {
-            if pos1 + i >= text.len() || pos2 + i >= text.len() {
-                return Ok(false);
-            }
-            if text[pos1 + i] != text[pos2 + i] {
-                return Ok(false);
-            }
-        }
-
-        Ok(true)
-    }
-
-    /// Find the end position of an LMS substring
-    fn find_lms_substring_end(&self, start: usize, lms_suffixes: &[usize], text_len: usize) -> usize {
-        // Find next LMS position after start
-        lms_suffixes.iter()
-            .find(|&&pos| pos > start)
-            .copied()
-            .unwrap_or(text_len)
-    }
-
-    /// Rebuild the suffix array with sorted LMS suffixes
-    fn rebuild_sa_with_sorted_lms(
-        &self,
-        text: &[u8],
-        sorted_lms: &[usize],
-        suffix_types: &[bool],
-        alphabet_size: usize,
-    ) -> Result<Vec<usize>> {
         let n = text.len();
-        let mut sa = vec![n; n]; // Initialize with sentinel values
-        let mut bucket = vec![0; alphabet_size];
-        let mut bucket_heads = vec![0; alphabet_size];
-        let mut bucket_tails = vec![0; alphabet_size];
-
-        // Count character frequencies
-        for &ch in text {
-            bucket[ch as usize] += 1;
+        let mut offset = 0;
+        loop {
+            let (i, j) = (pos1 + offset, pos2 + offset);
+            if i >= n || j >= n {
+                return false; // One of them contains the sentinel
+            }
+            if text[i] != text[j] {
+                return false;
+            }
+            if offset > 0 && (is_lms[i] || is_lms[j]) {
+                // Equal only if both substrings end here
+                return is_lms[i] && is_lms[j];
+            }
+            offset += 1;
         }
-
-        // Compute bucket boundaries
-        self.compute_bucket_boundaries(&bucket, &mut bucket_heads, &mut bucket_tails);
-
-        // Place sorted LMS suffixes with bounds checking
-        for &lms_pos in sorted_lms.iter().rev() {
-            if lms_pos >= text.len() {
-                continue;
-            }
-            let ch = text[lms_pos] as usize;
-            if ch < bucket_tails.len() && bucket_tails[ch] > 0 {
-                bucket_tails[ch] -= 1;
-                if bucket_tails[ch] < sa.len() {
-                    sa[bucket_tails[ch]] = lms_pos;
-                }
-            }
-        }
-
-        // Induce L-type and S-type suffixes
-        self.induce_l_type(&mut sa, text, suffix_types, &bucket_heads)?;
-        self.induce_s_type(&mut sa, text, suffix_types, &bucket_tails)?;
-
-        // Handle any remaining sentinel values by finding missing indices
-        if sa.iter().any(|&x| x >= n) {
-            // Find which indices are missing from the suffix array
-            let mut present = vec![false; n];
-            for &val in sa.iter() {
-                if val < n {
-                    present[val] = true;
-                }
-            }
-            
-            let missing_indices: Vec<usize> = (0..n).filter(|&i| !present[i]).collect();
-            let mut missing_iter = missing_indices.into_iter();
-            
-            // Replace sentinel values with missing indices
-            for sa_val in sa.iter_mut() {
-                if *sa_val >= n {
-                    if let Some(missing_idx) = missing_iter.next() {
-                        *sa_val = missing_idx;
-                    }
-                }
-            }
-        }
-        
-        Ok(sa)
     }
 
     /// DC3 (Divide-and-Conquer-3) algorithm implementation
@@ -898,23 +786,6 @@ impl SuffixArrayBuilder {
     fn build_parallel(&self, text: &[u8]) -> Result<Vec<usize>> {
         // For now, fall back to sequential - full parallel SA-IS is very complex
         self.build_sequential(text)
-    }
-    
-    /// Fallback sorting algorithm for when recursion depth is exceeded
-    fn fallback_sort(&self, text: &[u8]) -> Result<Vec<usize>> {
-        if text.is_empty() {
-            return Ok(Vec::new());
-        }
-        
-        // Use simple sorting for small texts or deep recursion
-        let mut sa: Vec<usize> = (0..text.len()).collect();
-        sa.sort_by(|&a, &b| {
-            let suffix_a = &text[a..];
-            let suffix_b = &text[b..];
-            suffix_a.cmp(suffix_b)
-        });
-        
-        Ok(sa)
     }
 }
 
